@@ -141,7 +141,8 @@ var reTm = regexp.MustCompile(`"tm": "[0-9]*"`)
 
 // fakeTF is the TransactionsFinder of ScanAddresses: active[i] is decided by position only.
 type fakeTF struct {
-	mode string // "none" | "last" | "error"
+	mode  string // "none" | "last" | "error" | "second-call-last" (bip44: only the change chain shows activity) | "first-call-first"
+	calls *int
 }
 
 func (f fakeTF) AddressesActivity(addrs []cipher.Addresser) ([]bool, error) {
@@ -149,8 +150,18 @@ func (f fakeTF) AddressesActivity(addrs []cipher.Addresser) ([]bool, error) {
 		return nil, fmt.Errorf("fake transactions finder failure")
 	}
 	out := make([]bool, len(addrs))
-	if f.mode == "last" && len(out) > 0 {
+	call := 0
+	if f.calls != nil {
+		*f.calls++
+		call = *f.calls
+	}
+	switch {
+	case f.mode == "last" && len(out) > 0:
 		out[len(out)-1] = true
+	case f.mode == "second-call-last" && call == 2 && len(out) > 0:
+		out[len(out)-1] = true
+	case f.mode == "first-call-first" && call == 1 && len(out) > 0:
+		out[0] = true
 	}
 	return out, nil
 }
